@@ -78,6 +78,23 @@ def run(ctx):
         vlib.log("SPEC-DRIFT property=%s: recorded traces are not behaviours of LinkTable.tla (advisory)" % prop)
     if prop == "C06":
         quic_links(ctx)
+        flash(ctx)
+
+
+def flash(ctx):
+    """links that are closed the moment they exist (the lost report can overtake the established report, QuicLinks.tla EstCallback / LostCallback /
+    PumpExit): real pconn transport + controller, lock contended by readers; afterwards nothing may be reported"""
+    opath = os.path.join(ctx.tmp, "flash.ndjson")
+    ctx.go_run("quicnet", ["-mode", "flash", "-out", opath], timeout=3000)
+    rows = vlib.read_ndjson(opath)
+    if not rows or rows[-1]["connected"] < rows[-1]["rounds"] // 2:
+        raise vlib.Infra("quicnet flash: too few connections succeeded (%s)" % rows)
+    x = rows[-1]
+    ctx.evaluations += x["connected"]
+    ctx.cov["flash_links"] = x["connected"]
+    if x["reported_at_end"]:
+        ctx.violation("C06:quic:a closed link is reported for ever (its loss was reported before it was registered)",
+                      "%d of %d links that were closed the moment they were established are still reported 20 s later (%d of them closed)" % (x["reported_at_end"], x["connected"], x["closed_still_reported"]), x)
 
 
 def quic_links(ctx):
